@@ -9,6 +9,6 @@ git diff -- include lib > /tmp/verify_cur.diff
 echo "== build (with patch)"; ninja -k 0 -C _build > _build/verify_ninja.log 2>&1; tail -1 _build/verify_ninja.log
 echo "== ctest (with patch)"; ctest --test-dir _build -j12 --timeout 900 2>&1 | grep -E "tests passed|Not Run|Failed|\*\*\*" | head -8
 echo "== demo with patch"; sh _seed/build.sh $wt > /tmp/verify_demo1.log 2>&1; echo "exit=$?"; tail -3 /tmp/verify_demo1.log
-echo "== demo without patch"; git apply -R /tmp/verify_cur.diff && sh _seed/build.sh $wt > /tmp/verify_demo2.log 2>&1; echo "exit=$?"; tail -3 /tmp/verify_demo2.log
+echo "== demo without patch"; git apply -R /tmp/verify_cur.diff && ninja -C _build Crab >/dev/null 2>&1; sh _seed/build.sh $wt > /tmp/verify_demo2.log 2>&1; echo "exit=$?"; tail -3 /tmp/verify_demo2.log
 git apply /tmp/verify_cur.diff
 echo "== restored"; git diff --stat -- include lib | tail -1
